@@ -22,14 +22,14 @@ Local Open Scope Z_scope.
 (* element classes the parser / converter distinguish *)
 Inductive tagk :=
   | TSvg | TG | TShape | TUse | TSymbol | TClipPath | TMask | TFilter | TFeImage | TFeOther
-  | TPattern | TGradient | TStop | TMarker | TText | TStyle | TOther
+  | TPattern | TGradient | TStop | TMarker | TText | TTspan | TStyle | TOther
   | TNonSvg.      (* parse_tag_name = None: not an element, foreign namespace or unknown name *)
 
 Definition tag_eqb (a b : tagk) : bool :=
   match a, b with
   | TSvg, TSvg | TG, TG | TShape, TShape | TUse, TUse | TSymbol, TSymbol | TClipPath, TClipPath
   | TMask, TMask | TFilter, TFilter | TFeImage, TFeImage | TFeOther, TFeOther | TPattern, TPattern
-  | TGradient, TGradient | TStop, TStop | TMarker, TMarker | TText, TText | TStyle, TStyle
+  | TGradient, TGradient | TStop, TStop | TMarker, TMarker | TText, TText | TTspan, TTspan | TStyle, TStyle
   | TOther, TOther | TNonSvg, TNonSvg => true
   | _, _ => false
   end.
@@ -143,6 +143,27 @@ Fixpoint bkids (rec : xnode -> bstate -> bstate * outcome (list snode)) (l : lis
       end
   end.
 
+(* svgtree/text.rs parse_svg_text_element_impl(parent := x, depth): the depth test first, then the children;
+   only tspan / tref / textPath / a (class TTspan) become elements (with their own ids: ignore_ids is false
+   there), everything else is skipped; character data is not modelled. *)
+Fixpoint btext (fuel : nat) (x : xnode) (depth : Z) (st : bstate) {struct fuel} : bstate * outcome (list snode) :=
+  let st := note_depth st depth in
+  if G_TEXT_DEPTH && (depth >? depth_limit) then (st, OErr EDepth) else
+  match fuel with
+  | O => (st, OOut)
+  | S f =>
+      bkids (fun k s =>
+               match xtag k with
+               | TTspan =>
+                   if G_NODES_BEFORE_APPEND && (b_count s >? nodes_limit) then (s, OErr ENodes) else
+                   match btext f k (depth + TEXT_DEPTH_STEP) (bump s) with
+                   | (s2, OOk ks) => (s2, OOk [SN (b_next s) TTspan (xname k) (xflag k) (xattrs k) ks])
+                   | (s2, e) => (s2, e)
+                   end
+               | _ => (s, OOk [])
+               end) (xkids x) st
+  end.
+
 Fixpoint bnode (fuel : nat) (doc x : xnode) (origin : option nat) (ignore_ids : bool) (depth : Z) (st : bstate)
   {struct fuel} : bstate * outcome (list snode) :=
   let st := note_depth st depth in
@@ -160,7 +181,11 @@ Fixpoint bnode (fuel : nat) (doc x : xnode) (origin : option nat) (ignore_ids : 
           let nm := if ignore_ids then None else xname x in
           let mk ks := SN id tag nm (xflag x) (xattrs x) ks in
           match tag with
-          | TText => (st1, OOk [mk []])          (* svgtree/text.rs: not modelled, no element children *)
+          | TText =>
+              match btext f x (depth + TEXT_DEPTH_STEP) st1 with
+              | (st2, OOk ks) => (st2, OOk [mk ks])
+              | (st2, e) => (st2, e)
+              end
           | TUse =>
               match resolve_href doc x with
               | None => (st1, OOk [mk []])
@@ -197,12 +222,19 @@ Definition state_eqb (a b : nat * option nat) : bool :=
   Nat.eqb (fst a) (fst b) &&
   match snd a, snd b with Some x, Some y => Nat.eqb x y | None, None => true | _, _ => false end.
 
+Fixpoint utext (fuel : nat) (x : xnode) : bool :=
+  match fuel with
+  | O => true
+  | S f => existsb (fun k => match xtag k with TTspan => utext f k | _ => false end) (xkids x)
+  end.
+
 Fixpoint uloop (fuel : nat) (doc : xnode) (path : list (nat * option nat)) (x : xnode) (origin : option nat) : bool :=
   match fuel with
   | O => true
   | S f =>
       match xtag x with
-      | TNonSvg | TStyle | TText => false
+      | TNonSvg | TStyle => false
+      | TText => utext f x
       | TUse =>
           match resolve_href doc x with
           | None => false
